@@ -12,7 +12,9 @@ PROP = {'streams': [('c13', 2000, 60000)],
               'pinterp_sound_store', 'pinterp_sound_store_reauth', 'pinterp_sound_store_reauth_direct', 'second_round_needed', 'direct_unknown_one_round',
               'missing_unbound_counterexample', 'partial_definite_sound', 'partial_authorization_sound', 'pinterp_sound_store_on',
               'pinterp_sound_store_reauth_on', 'partial_definite_sound_on', 'partial_authorization_sound_on', 'restricted_eval_sound',
-              'concretize_entry_gives_conc', 'context_substitute_gives_completes'],
+              'concretize_entry_gives_conc', 'context_substitute_gives_completes', 'reauthorize_eq_fresh_on',
+              'partial_authorization_sound_direct', 'concretize_request_sound', 'partial_authorization_sound_req',
+              'partial_authorization_sound_direct_req', 'unknown_call_counterexample', 'unknown_call_sound_partial'],
  'assumptions': ["error classes are not compared between residual evaluation and concrete evaluation (the property says 'errors')",
                  'unknowns created by a partial store for missing entities are substituted by the entity itself; the completed store is the full '
                  'store; in the relativised (_on) theorems this is required only for missing entities whose uid is mentioned by the policies, the '
@@ -20,7 +22,11 @@ PROP = {'streams': [('c13', 2000, 60000)],
                  'of the uids dereferenced)',
                  'an unknown nested inside an entity attribute value is only discovered by the reauthorize round that first dereferences the entity '
                  "(documented as 'undiscovered unknowns' in Expr::substitute); a second round with the same substitution is allowed before comparing",
-                 'policies calling unknown("x") themselves are only diffed against the model (no concrete counterpart exists)']}
+                 'policies calling unknown("x") themselves are only diffed against the model (no concrete counterpart exists: '
+                 'unknown_call_counterexample shows reauthorize = Allow vs fresh concrete = Deny; the sound reading is the desugaring of the '
+                 'call to the unknown node, UnknownCallSoundFull, proved only for the call itself)',
+                 'a residual context lies in the fragment (PS.CtxFrag: the substitution defines its unknowns with canonical values of the '
+                 'annotated types, distinct keys) — the side condition under which concretize_request = ok yields Concretizes2']}
 
 TEXT = ('Lean theorems over the mirror of partial_interpret (residual arms, best-effort fall-back, projectable records, typed-unknown short circuits, '
  'partial stores, unknown(), split, unknowns mapper), PartialResponse (decision table, may/must determining, reauthorize, concretize_request): '
@@ -41,11 +47,19 @@ TEXT = ('Lean theorems over the mirror of partial_interpret (residual arms, best
  'pinterp_sound_store_on / pinterp_sound_store_reauth_on / partial_definite_sound_on / partial_authorization_sound_on (the same for '
  '.partial() stores with the binding hypothesis relativised to the finite list of mentioned uids, by a closed-world invariant on every value '
  'and residual of the first pass; non-vacuous: an example where the unrelativised hypothesis is false); '
+ 'partial_authorization_sound_direct (one reauthorize round on the UNSUBSTITUTED store equals the fresh concrete authorization when every '
+ 'residual attribute is a direct unknown and no tag is residual; PolicyAgreesOn / reauthorize_core_on generalise the policy-level agreement over '
+ 'the second-pass store); concretize_request_sound / partial_authorization_sound_req / _direct_req (concretize_request = ok as the only request '
+ 'hypothesis: the do-block mirroring PartialResponse::concretize_request yields Concretizes2); unknown_call_counterexample (kernel-checked: '
+ 'for a policy calling unknown("x") reauthorize answers Allow while the concrete authorization of the policy answers Deny — the call becomes '
+ 'an unknown node in the first pass, is an error concretely and is never substituted; the fragment must exclude such calls) and '
+ 'unknown_call_sound_partial (the call itself agrees with its desugaring); '
  'pinterpSoundFull_needs_cover (the full statement needs a substitution '
  'that defines every typed unknown); tied to the code by a differential run (partial observable and reauthorized responses), plus the statement '
  'itself evaluated on the implementation for sampled substitutions.',
  'proof over a hand-written model; pinterp soundness is proved on a fragment (full statement kept as a Prop; missing: for .partial() stores the set of uids that must be present or bound '
  'over-approximates the uids actually dereferenced, the '
- 'one-round statement on the unsubstituted store for direct unknowns only at expression level, residual contexts / attributes specified '
- 'through evaluate-after-substitute rather than the restricted evaluator, calls of unknown() in the policy text; record constructors are '
+ 'residual attributes of the store specified '
+ 'through evaluate-after-substitute rather than the restricted evaluator, calls of unknown() in the policy text (refuted as stated; the '
+ 'desugared statement UnknownCallSoundFull is kept as a Prop, proved for the call itself only); record constructors are '
  'assumed to have distinct keys and values to be canonical as Rust holds them); correspondence sampled (harness/src/c13.rs); residual shapes never compared')
